@@ -4,8 +4,10 @@ cd "$(dirname "$0")/.."
 tier=${1:-quick}
 for p in $(python3 -c "import json; print(' '.join(c['property_id'] for c in json.load(open('MANIFEST.json'))['checks']))"); do
   start=$(date +%s)
+  mkdir -p /root/scratch/runall_logs 2>/dev/null
   out=$(./check $p --tier $tier 2>&1)
   rc=$?
+  echo "$out" > /root/scratch/runall_logs/$p.$tier.log 2>/dev/null
   echo "$p rc=$rc $(( $(date +%s) - start ))s $(echo "$out" | grep -c '^VIOLATION') violation(s) $(echo "$out" | grep -c '^KNOWN-FINDING') known | $(echo "$out" | grep 'obligations' | tail -1 | sed 's/.*obligations/obligations/')"
   echo "$out" | grep '^VIOLATION' | head -3
 done
